@@ -14,6 +14,7 @@ mod p_gen;
 mod p_upd;
 mod p_yaml;
 mod p_render;
+mod p_env;
 
 use std::io::{BufWriter, Write};
 
@@ -40,6 +41,7 @@ fn main() {
         "upd" => p_upd::main(&args[1..], &mut w),
         "yaml" => p_yaml::main(&args[1..], &mut w),
         "render" => p_render::main(&args[1..], &mut w),
+        "envrun" => p_env::main(&args[1..], &mut w),
         "consts" => p_consts::main(&args[1..], &mut w),
         x => { eprintln!("unknown subcommand {}", x); std::process::exit(2); }
     }
